@@ -249,9 +249,13 @@ def run_case(case: dict, ops: list, drain=None, preload: bool = False, built: di
                         break
                 ended = any(e["end"] and not e["err"] for e in s.events)
                 if not done and not ended and drain is not None:
+                    empties = 0
                     for _ in range(cap):
                         e = s.step(*drain)
                         if e["err"] or e["end"]:
+                            break
+                        empties = empties + 1 if e["len"] == 0 else 0
+                        if empties >= 3:          # a generator that keeps yielding b"": already a violation
                             break
         conn = s.connection_facts()
         b = s.b
